@@ -490,3 +490,9 @@ func EncodeDataPacket(e *Enc, code uint64, table string, rev int, b *Block, meth
 	e.Raw(f, RPayload)
 	return nil
 }
+
+// EncodeClientInfo writes a bare ClientInfo (as embedded in a Query packet).
+func EncodeClientInfo(e *Enc, c ClientInfo, rev int) { encodeClientInfo(e, c, rev) }
+
+// DecodeClientInfo parses a bare ClientInfo.
+func DecodeClientInfo(d *Dec, rev int) (ClientInfo, error) { return decodeClientInfo(d, rev) }
